@@ -408,6 +408,16 @@ def process_config(args):
             failed, note = concrete_run(mod, cfg, v["inputs"])
         except Exception as e:
             failed, note = None, "replay crashed: " + "".join(traceback.format_exception_only(type(e), e))
+        if not failed:
+            # value-independent defects (a stale table, a wrong axis) also show on the harness's generic
+            # default inputs; solver models over uninterpreted kernels need not survive the real kernels
+            try:
+                failed2, note2 = concrete_run(mod, cfg, None)
+            except Exception as e:
+                failed2, note2 = None, "default replay crashed: " + repr(e)
+            if failed2:
+                failed, note = failed2, "reproduced on the harness default inputs (solver model did not survive the real kernels)"
+                v["inputs"] = {}
         v["replay_failed"] = failed
         v["replay_note"] = note
         v["reproduced"] = bool(failed)
